@@ -3,7 +3,8 @@ import random, re, os
 from .. import common, gen_table as G, ref_forward as RF
 
 THEOREMS = ["Lou.Chain.insR_sorted", "Lou.Chain.find_first_le", "Lou.C05.addFwdMulti_inv", "Lou.C05.addRule_inv",
-            "Lou.C05.compileEntry_inv", "Lou.C05.chain_sorted", "Lou.GenFacts.opcode_ranges",
+            "Lou.C05.compileEntry_inv", "Lou.C05.chain_sorted", "Lou.C05.walkChain_eq_find", "Lou.C05.go_spec",
+            "Lou.C05.select_refines", "Lou.GenFacts.opcode_ranges",
             "Lou.GenFacts.opcode_values_nodup"]
 
 CLAIM = dict(
@@ -20,8 +21,10 @@ CLAIM = dict(
           "Python reference of the documented algorithm (tools/lv/ref_forward.py, written from the property text) must "
           "agree with the implementation on cells, consumed input, positions and the back-off result for every generated "
           "table x string x capacity x {0, noContractions, dotsIO, noUndefined}; exhaustive small scope in the thorough tier."),
-    note=("select_refines (chain walk = minimum of the candidate set) is proved only up to find_first_le; the equality of the "
-          "whole engine with the reference is established by differential testing, not by a theorem. capsletter is outside "
+    note=("select_refines is proved for the multi-character stage on tables satisfying FwdWF (resolved, sorted chains, raw-hash "
+          "bucket membership, distinct keys, FoldFixed); chain_sorted delivers the first two clauses for every compiled entry "
+          "list, the bucket/key/FoldFixed clauses are established for compiled tables in C12 (compile_consistent). The equality "
+          "of the whole engine with the reference is established by differential testing, not by a theorem. capsletter is outside "
           "the modelled fragment of this revision (the engine model answers UNSUPPORTED); `base` case folding is modelled in "
           "the engine but not in the compile model."),
     technique="Lean 4 proof (compile invariant, sorted chains) + compile-model/DUMP and engine-model/H4 correspondences + independent reference oracle",
